@@ -193,6 +193,8 @@ func signAs(rnd io.Reader, pub []byte, digest []byte) (*big.Int, *big.Int, error
 		return nil, nil, err
 	}
 	r, s := vFresh("ecdsa_r", 48), vFresh("ecdsa_s", 48)
+	vAssume(r[0] != 0) // full-width scalars (keeps the byte-level big.Int model free of case splits)
+	vAssume(s[0] != 0)
 	sigLog = append(sigLog, sigEntry{pub: pub, digest: clone(digest), r: r, s: s})
 	return newBig(r), newBig(s), nil
 }
